@@ -5,6 +5,7 @@ Import ListNotations.
 Open Scope N_scope.
 
 (* ---- from package . ---- *)
+(* ---- from package . ---- *)
 Definition g_default_replay_window : N := 64.
 Definition g_max_queue : N := 100.
 Definition g_inbound_buffer : N := 8192.
@@ -60,11 +61,9 @@ Definition g_auth_certificate : N := 1.
 Definition g_auth_psk : N := 2.
 Definition g_kx_psk : N := 2.
 Definition g_kx_ecdhe : N := 4.
-
 (* ---- from package ./internal/fragmentbuffer ---- *)
 Definition g_fragment_buffer_max_size : N := 2000000.
 Definition g_fragment_buffer_max_count : N := 1000.
-
 (* ---- from package ./pkg/protocol/handshake ---- *)
 Definition g_c18_sigschemes : list (N * (N * N)) :=
   [(256, (1, 0)); (257, (1, 1)); (259, (1, 3)); (263, (1, 7)); (512, (2, 0)); (513, (2, 1)); (515, (2, 3)); (519, (2, 7)); (768, (3, 0)); (769, (3, 1)); (771, (3, 3)); (775, (3, 7)); (1024, (4, 0)); (1025, (4, 1)); (1027, (4, 3)); (1031, (4, 7)); (1280, (5, 0)); (1281, (5, 1)); (1283, (5, 3)); (1287, (5, 7)); (1536, (6, 0)); (1537, (6, 1)); (1539, (6, 3)); (1543, (6, 7)); (2048, (8, 0)); (2049, (8, 1)); (2051, (8, 3)); (2052, (4, 2052)); (2053, (5, 2053)); (2054, (6, 2054)); (2055, (8, 7)); (2057, (4, 2057)); (2058, (5, 2058)); (2059, (6, 2059))].
